@@ -3,6 +3,7 @@ package props
 import (
 	"bufio"
 	"bytes"
+	"compress/gzip"
 	"encoding/binary"
 	"encoding/hex"
 	"fmt"
@@ -304,6 +305,21 @@ func c10Inputs(c *core.Ctx) []c10Input {
 	}
 	for _, h := range hostile {
 		ins = append(ins, c10Input{"hostile", h})
+	}
+	// amplifying containers: small well-formed gzip members whose content is thousands of times longer (zeros, or a
+	// long run of one valid entry), bare and as the event stream of a packed message marked compressed=gzip.  Nothing
+	// in the decoders may inflate them on its own account: memory stays proportionate to the bytes given.
+	for _, content := range [][]byte{make([]byte, 8<<20), bytes.Repeat([]byte{0x92, 0x01, 0x80}, 2<<20)} {
+		var zb bytes.Buffer
+		zw := gzip.NewWriter(&zb)
+		_, _ = zw.Write(content)
+		_ = zw.Close()
+		z := zb.Bytes()
+		ins = append(ins, c10Input{"amplifying:gzip", z})
+		pm := &protocol.PackedForwardMessage{Tag: "t", EventStream: z, Options: &protocol.MessageOptions{Compressed: "gzip"}}
+		if b, err := pm.MarshalMsg(nil); err == nil {
+			ins = append(ins, c10Input{"amplifying:packed-gzip", b})
+		}
 	}
 	return ins
 }
